@@ -828,7 +828,7 @@ def fun_strategy(env):
     @st.composite
     def cases(draw):
         family = draw(st.sampled_from(['valid', 'valid', 'valid', 'recursive', 'recursive', 'adv:extra-var',
-                                       'adv:wrong-head', 'adv:not-equation', 'missing-case']))
+                                       'adv:wrong-head', 'adv:not-equation', 'missing-case', 'var-pattern']))
         uni = draw(st.booleans())
         kinds = ['bool'] + (['nat', 'nat'] if env.has_nat else []) + (['list', 'list'] if env.has_list and LA in env.atoms else [])
         kind = draw(st.sampled_from(kinds))
@@ -861,10 +861,14 @@ def fun_strategy(env):
             if family == 'adv:extra-var':
                 rhs = ["app", ["abs", "r", BOOL, rhs], ['v', 'w9', BOOL]]
             pat = japp(ctor, *[['v', a[0], a[1]] for a in cargs])
+            pat_txt = L.jterm_text(pat, ann, (), uni)
+            if family == 'var-pattern' and not cargs:
+                # a pattern whose variables are typed only through an annotation: f ((g::bool => P) q) = ...
+                pat_txt = '((g9::%s) q9)' % L.jt_text(fun(BOOL, P), uni)
             head = name
             if family == 'adv:wrong-head':
                 head = 'neg' if draw(st.booleans()) else 'h9'
-            lhs = ' '.join([head, L.jterm_text(pat, ann, (), uni)] + [p[0] for p in extra])
+            lhs = ' '.join([head, pat_txt] + [p[0] for p in extra])
             prop = lhs + ' = ' + L.jterm_text(rhs, ann, (), uni)
             if family == 'adv:not-equation':
                 prop = '(' + prop + ') --> true'
